@@ -1904,25 +1904,29 @@ func init() {
 					"a sliding window of W live bindings, PRNG mixes of define/set/delete/delete-nearest/get/addr/String/path lookup with unbound deletes, Set storms on one binding whose nearest holder moves, type tables of up to 300 names, and 'churn' calls that create up to 1100 short-lived children, Copies or DeepCopies of the scope, " +
 					"write to each and drop it; Copy/DeepCopy snapshots are taken between and inside segments (the history may go on on the snapshot) and at the end, followed by a delete-nearest drain. In these histories the audit after every call also looks up, from every live scope, the name just addressed and two more names in rotation, " +
 					"and every name the history ever used on every 64th audit and right after each copy; the symbol lists of every scope are compared in full after every call as everywhere. " +
-					"A history is non-trivial when it performed >=2 state changes on >=2 scopes; distinct = distinct operation list.",
+					"A history is non-trivial when it performed >=2 state changes on >=2 scopes; distinct = distinct operation list." + c12R8Rule,
 				Assumptions: []string{
 					"values are compared by Go interface equality (pool: nil, int64, string, bool, float64, one pointer, *env.Env); reflect.Values handed to the API are always valid",
 					"a reflect.Value that reflect marks read-only (obtained through an unexported struct field) cannot be returned by Get, so binding one is taken to be an invalid request (error, state unchanged); when an external lookup answers one, the lookup of that name is the invalid request (error from Get/GetValue/Addr/a script use, state unchanged, no panic): the answer shadows the enclosing scopes like every other answer of a lookup object, falling through to them is not accepted; Set/DeleteGlobal of such a name are accepted both ways like for every name a nearer lookup object supplies; for path lookup the answer is a non-module",
 					"script spellings (a reading of the language, not of the statement): vm.Execute(scope, nil, src) runs the statements of src in that very scope; `var n = <literal>` is scope.Define(n, value of the literal) with integer literals int64 and 2.5 a float64; `delete(\"n\")` and `delete(\"n\", false)` are scope.Delete(n); `delete(\"n\", true)` is scope.DeleteGlobal(n); an expression using the name n looks n up from the scope (a function literal's body: from a fresh child of it). `n = v` is not used: its set-or-define meaning is not part of the statement. What `&n` points at is not compared, and `&n` failing on a bound name is accepted (as Addr's 'unaddressable')",
 					"long histories: a scope has no memory - the outcome of a call depends on the current content of the chain only, however many calls, bindings, removals, copies or children came before",
 					"external lookups are harness objects holding plain (undotted) names; they answer plain values and modules (existing scopes)",
+					c12R8Assumptions[0], c12R8Assumptions[1],
 					"accepted both ways: Set/DeleteGlobal of a name an external lookup of a nearer scope supplies; path lookup whose nearest first-element binding is a non-module while an outer module exists, or whose first element an external lookup answers with a module (three readings of the first element: nearest binding / nearest table module / nearest module with lookups; one reading must explain a path, its one-element prefix and its two-element extensions in one state); later path elements that only the module's external lookup or parent chain could supply; Addr returning 'unaddressable'",
 				},
-				Phases: []fw.Phase{
+				Phases: append([]fw.Phase{
 					{Name: "fixed", Cases: len(c12Fixed), Chunk: len(c12Fixed), TimeoutS: 300},
 					{Name: "enum", Cases: c12EnumCases(tier), Chunk: c12EnumChunk(tier), Exhaust: true, TimeoutS: 900},
 					{Name: "random", Cases: nRand, Chunk: c12RandChunk(tier), TimeoutS: 900},
 					{Name: "paths", Cases: nPaths, Chunk: 4 * c12RandChunk(tier), Jobs: 4, MemMB: 3072, TimeoutS: 900},
 					{Name: "long", Cases: c12LongCases(tier), Chunk: c12LongChunk(tier), TimeoutS: 900},
-				},
+				}, c12R8Phases(tier)...), // volume, hot, stream: see c12_r8.go
 			}
 		},
 		Run: func(c *wk.Case) {
+			if c12R8Run(c) {
+				return
+			}
 			switch c.Phase {
 			case "fixed":
 				ops := c12Fixed[c.Index]
